@@ -127,11 +127,11 @@ func siblingCompare(r *R, rule, rel string, fns []*ssa.Function, skip map[string
 		}
 		sort.Strings(diffs)
 		if len(diffs) > 0 && os.Getenv("FPCHECK_DEBUG_SIB") != "" {
-			for k := range am {
-				println("FORK", k)
+			for k, v := range am {
+				println("FORK", k, "::", strings.Join(v, " ; "))
 			}
-			for k := range bm {
-				println("REF ", k)
+			for k, v := range bm {
+				println("REF ", k, "::", strings.Join(v, " ; "))
 			}
 		}
 		if len(diffs) > 0 {
